@@ -3,12 +3,14 @@ package main
 
 import (
 	"fmt"
+	"net/http"
 	"net/http/httptest"
 	"os"
 	"path/filepath"
 	"sort"
 	"strings"
 	"sync"
+	"sync/atomic"
 	"syscall"
 	"time"
 
@@ -287,6 +289,90 @@ func runC12(em *vEmitter, r *vRng) {
 			Human: map[string]interface{}{"login_ok": ok, "master_pid": mpid, "slave_unchanged": slaveBefore == slaveAfter}}
 		if viol != "" {
 			c.Violation = viol
+		}
+		em.emit(c)
+		master.cleanup()
+		slave.cleanup()
+	}
+	// remote mode across an outage of the upgrade master: while it answers 503 (or is down) nothing is
+	// upgraded - allowed; once it is back and the agent is idle, a successful login with an upgradeable
+	// hash is upgraded on the master again, however many attempts failed in between
+	for rep := 0; rep < 1+map[bool]int{true: 3, false: 0}[vThorough()]; rep++ {
+		master := mNewStore("c12om", r, 2)
+		slave := mNewStore("c12os", r, 2)
+		slave.params = master.params
+		slave.writeCfg()
+		names := []string{"root"}
+		for i := 0; i < 14; i++ {
+			names = append(names, fmt.Sprintf("u%02d", i))
+		}
+		for i, u := range names {
+			pid := uint(1)
+			if i == 0 {
+				pid = 2
+			}
+			salt := r.bytes(16)
+			if pid == 2 {
+				salt = r.bytes(32)
+			}
+			master.plant(u, i == 0, pid, 1600000000, salt, []byte("pw-"+u), "")
+			slave.plant(u, i == 0, pid, 1600000000, salt, []byte("pw-"+u), "")
+		}
+		mst, err := NewStore(master.cfgfile, "local", "", "", "")
+		if err != nil {
+			panic(err)
+		}
+		mux, _ := newWebHandler(mst.GetInterface())
+		var healthy atomic.Bool
+		healthy.Store(true)
+		srv := httptest.NewServer(http.HandlerFunc(func(w http.ResponseWriter, q *http.Request) {
+			if !healthy.Load() {
+				http.Error(w, "maintenance", http.StatusServiceUnavailable)
+				return
+			}
+			mux.ServeHTTP(w, q)
+		}))
+		sst, err := NewStore(slave.cfgfile, srv.URL+"/api/update", "", "", "")
+		if err != nil {
+			panic(err)
+		}
+		sapi := sst.GetInterface()
+		slaveBefore := slave.snapshotTerm()
+		waitPid := func(u string, want int, d time.Duration) bool {
+			dl := time.Now().Add(d)
+			for time.Now().Before(dl) {
+				if firstLinePid(userFile(master.base, u)) == want {
+					return true
+				}
+				time.Sleep(10 * time.Millisecond)
+			}
+			return false
+		}
+		sapi.Authenticate("u00", "pw-u00")
+		firstOK := waitPid("u00", 2, 15*time.Second)
+		healthy.Store(false)
+		for i := 1; i <= 12; i++ {
+			u := fmt.Sprintf("u%02d", i)
+			sapi.Authenticate(u, "wrong")
+			sapi.Authenticate(u, "pw-"+u)
+			time.Sleep(15 * time.Millisecond)
+		}
+		time.Sleep(300 * time.Millisecond)
+		healthy.Store(true)
+		vAgentIdle(sst, func() { sapi.List() }, 10*time.Second)
+		ok, _, _, _ := sapi.Authenticate("u13", "pw-u13")
+		upgraded := waitPid("u13", 2, 15*time.Second)
+		vAgentIdle(mst, func() { mst.GetInterface().List() }, 10*time.Second)
+		srv.Close()
+		mok, _, _, _ := mst.GetInterface().Authenticate("u13", "pw-u13")
+		slaveSame := slaveBefore == slave.snapshotTerm()
+		mpid := firstLinePid(userFile(master.base, "u13"))
+		c := vCase{Prop: "C12", Kind: "remote", Class: "remote/after-master-outage", Nontrivial: true,
+			Coq: fmt.Sprintf("Remote true %s %d %s", cB(slaveSame), mpid, cB(mok)),
+			Human: map[string]interface{}{"login_ok": ok, "upgrade_before_the_outage": firstOK, "failed_upgrade_calls_during_the_outage": 12,
+				"master_pid_after": mpid, "upgraded_after_the_outage": upgraded, "slave_unchanged": slaveSame}}
+		if !firstOK {
+			c.Violation = "remote upgrade with a healthy master did not happen (before the outage)"
 		}
 		em.emit(c)
 		master.cleanup()
